@@ -81,10 +81,10 @@ theorem rd64_le64 (v : Nat) (h : v < 2 ^ 64) : rd64 (le64 v) = v := by
   rw [rd32_le32 _ (by omega)]; omega
 
 /-- the last id child decides (`pdrid = …` is assigned in the loop) -/
-theorem lastId {α : Type} (idOf : α → Option Nat) (f : List α → Nat → Nat)
+theorem lastId {α β : Type} (idOf : α → Option β) (f : List α → β → β)
     (hnil : ∀ cur, f [] cur = cur)
     (hcons : ∀ c cs cur, f (c :: cs) cur = f cs ((idOf c).getD cur))
-    (cs : List α) (cur : Nat) : f cs cur = ((cs.filterMap idOf).getLast?).getD cur := by
+    (cs : List α) (cur : β) : f cs cur = ((cs.filterMap idOf).getLast?).getD cur := by
   induction cs generalizing cur with
   | nil => simp [hnil]
   | cons c cs ih =>
